@@ -15,7 +15,8 @@ RULE = ("(a) generator level, through genprobe (the real convert_case / snakify 
         "near misses through from_str; (b) derive level: enums under each of the 16 style strings with dictionary variants, half of "
         "them carrying explicit spellings, through VariantNames, Display, AsRefStr, IntoStaticStr, EnumString and "
         "get_serializations. non-trivial = distinct (identifier or definition, style, observable); a digest block counts once")
-ASSUMPTIONS = ["the theorems are about ASCII identifiers (heck 0.5.0 is modelled by Model/Heck.v over ASCII bytes); non-ASCII and raw identifiers are compared with a Rust reference on heck itself (Rust-vs-Rust differential, outside the proof)"]
+ASSUMPTIONS = ["Model/Heck.v (ASCII bytes) is tied by the exhaustive sweep; identifiers in the rest of Unicode are evaluated by Model/HeckU.v (theorems C07u_*: the same scanner and styles over scalar values, for ANY character database in which Lowercase and Uppercase are disjoint; C07u_ascii_instance: Heck.v is its ASCII instance) instantiated with the table Rust's own `char` methods print for the characters in play (std's Unicode tables are trusted; closure and disjointness of each table are tested)",
+               "identifiers containing U+03A3 are outside that model (context-dependent final sigma in heck's `lowercase` and in str::to_lowercase): compared with a Rust reference written on heck itself (Rust-vs-Rust differential, outside the proof)"]
 
 DICT = ["HTTPServer", "XMLHttpRequest2", "Utf8_String", "GreenApple", "Red", "X", "Id", "IOError", "A1b2", "Abc_def", "snake_name",
         "SCREAMING_ONE", "Blue2Go", "darkGray", "Http2_Proxy", "V10", "QRCode", "WiFi", "Z9", "__Private", "Trailing_", "a", "AB", "ABc",
@@ -79,13 +80,16 @@ def build_corpus(tier, rng):
             c.add_q(k0, "casing", ["convert", S.hx(st), S.hx(ident)], note="alias")
     for s in G.STYLES + NEAR:
         c.add_q(k0, "casing", ["stylename", S.hx(s)], note="table")
-    # (a') identifiers OUTSIDE the model's domain (non-ASCII; raw): the real convert_case / snakify against a Rust reference written
-    # on heck 0.5.0 from the documentation (harness/genprobe `mod reference`): Rust-vs-Rust differential, not a theorem
+    # (a') non-ASCII and raw identifiers: the real convert_case / snakify against Model/HeckU.v instantiated with the character table
+    # the probe prints from Rust's `char` methods; identifiers with U+03A3 against a Rust reference written on heck 0.5.0 from the
+    # documentation (harness/genprobe `mod reference`: Rust-vs-Rust differential, not a theorem)
+    tabs = G.char_tables(ID, UNI + RAW)
     for ident in UNI + RAW:
+        tab = [tabs[ident]] if tabs.get(ident) else []
         for st in G.STYLES + [None]:
-            c.add_q(k0, "casing", ["convertu", S.hx(st) if st else "-", S.hx(ident)], note="non-ascii")
+            c.add_q(k0, "casing", ["convertu", S.hx(st) if st else "-", S.hx(ident)] + tab, note="non-ascii")
         if not ident.startswith("r#"):
-            c.add_q(k0, "casing", ["snakifyu", S.hx(ident)], note="non-ascii")
+            c.add_q(k0, "casing", ["snakifyu", S.hx(ident)] + tab, note="non-ascii")
     # (b) derive level
     for si, st in enumerate(G.STYLES):
         for rep in range(3 if thorough else 1):
@@ -140,7 +144,7 @@ def probe_command(corpus, n, k, kind, args):
     if args[0] == "stylename":
         return "style %d %s" % (n, args[1])
     if args[0] == "convertu":
-        return "caseu %d %s %s" % (n, args[1], args[2])
+        return "caseu %d %s %s" % (n, args[1], args[2])          # (args[3], the character table, is for the model)
     if args[0] == "snakifyu":
         return "snakifyu %d %s" % (n, args[1])
     return None
@@ -155,9 +159,20 @@ def render_def(k, it, meta, cfg):
 def compare(corpus, k, kind, args, note, iobs, mobs, cfg):
     if kind == "casing" and args[0] in ("convertu", "snakifyu"):
         parts = dict(p.split("=", 1) for p in iobs.split("|"))
-        ok = parts.get("real") == parts.get("ref") and parts.get("real") not in (None, "panic")
-        return ok, True, None if ok else "real %s, Rust reference %s (identifier %r)" % (
-            S.unhx(parts.get("real", "?")), S.unhx(parts.get("ref", "?")), S.unhx(args[-1]))
+        ident = S.unhx(args[2] if args[0] == "convertu" else args[1])
+        real = parts.get("real")
+        if mobs.startswith("x"):
+            # the Unicode-parametric model (Model/HeckU.v on the probe's character table) answers: it decides
+            UNI_STATS["decided_by_the_unicode_model"] += 1
+            if parts.get("ref") != mobs:
+                UNI_STATS["reference_disagrees_with_the_model"] += 1
+            ok = real == mobs
+            return ok, True, None if ok else "real %s, model %s (identifier %r)" % (S.unhx(real or "?") if (real or "").startswith("x") else real, S.unhx(mobs), ident)
+        # U+03A3 in the identifier (final-sigma rules are outside the model): Rust-vs-Rust differential
+        UNI_STATS["decided_by_the_rust_reference"] += 1
+        ok = real == parts.get("ref") and real not in (None, "panic") and mobs == "outside-model-domain"
+        return ok, True, None if ok else "real %s, Rust reference %s, model %s (identifier %r)" % (
+            S.unhx(real or "?") if (real or "").startswith("x") else real, S.unhx(parts.get("ref", "?")), mobs, ident)
     if kind == "casing":
         if args[0] == "sweep" and iobs != mobs:
             a, b = iobs.split(":")[1].split(","), mobs.split(":")[1].split(",")
@@ -167,6 +182,9 @@ def compare(corpus, k, kind, args, note, iobs, mobs, cfg):
     return S.compare_strings(corpus, k, kind, args, note, iobs, mobs, cfg)
 
 
+UNI_STATS = {"decided_by_the_unicode_model": 0, "decided_by_the_rust_reference": 0, "reference_disagrees_with_the_model": 0}
+
+
 def extra_coverage(corpus, tier):
-    return {"exhaustive": True,
+    return {"non_ascii_identifiers": dict(UNI_STATS), "non_ascii_variant_names": dict(G.NAME_STATS), "exhaustive": True,
             "exhaustive_note": "all valid identifiers over {a,b,A,B,1,_} up to length %d x 16 style strings, no style and snakify, by digest" % (8 if tier == "thorough" else 6)}
